@@ -213,6 +213,9 @@ func genC15(t *rapid.T, cfg *core.Config) *core.Case {
 	}
 	g := core.NewGen(t, spec, rapid.IntRange(3, fuel).Draw(t, "fuel"), excl)
 	g.Calls = rapid.IntRange(0, 9).Draw(t, "calls") < 3
+	if rapid.IntRange(0, 2).Draw(t, "zoo") == 0 {
+		g.Zoo = rapid.IntRange(5, 40).Draw(t, "zoo%")
+	}
 	var x *core.X
 	switch k := rapid.IntRange(0, 19).Draw(t, "const"); {
 	case k == 0:
